@@ -277,8 +277,35 @@ def _escape_table(ctx):
                               line=sp.fn.lineno, engine='E5')
 
 
+class _Probe(object):
+    """context stand-in for optional pattern probes"""
+
+    def ob(self, *a, **k):
+        return True
+
+    def violation(self, *a, **k):
+        return None
+
+    def error(self, *a, **k):
+        return None
+
+
 def _framing(ctx):
     m = ctx.model
+    # known over-splitter: str.splitlines() also breaks at VT, FF, FS, GS, RS, NEL (U+0085), LS, PS, all of which
+    # are legal raw characters inside ZINC strings, URIs and units
+    try:
+        pp0 = m.func('parser', 'parse')
+        for n in ast.walk(pp0):
+            if isinstance(n, ast.Call) and isinstance(n.func, ast.Attribute) and n.func.attr == 'splitlines':
+                ctx.violation('C03.D3', '%s::parse' % FR, norm(n),
+                              'the well-formed document \'ver:"3.0"\\na\\n"x\\u2028y"\\n\' with the character U+2028 (or '
+                              'U+0085, U+001C..1E, VT, FF) written raw inside the string is cut in the middle of the token '
+                              'and rejected: str.splitlines() treats those characters as line ends, ZINC only LF / CRLF',
+                              'the document is split with str.splitlines(), which recognises more line boundaries than '
+                              'the ZINC grammar', file=FR, line=n.lineno, engine='E3')
+    except AnalysisError:
+        pass
     try:
         pp = m.func('parser', 'parse')
         tnl = m.const('parser', 'TRAILING_NL_RE')
@@ -304,9 +331,12 @@ def _framing(ctx):
     # (i) final newline optional
     try:
         pr_t = L.PyRegex(tnl.pattern, tnl.flags)
-        strips_all = "TRAILING_NL_RE.sub('', grid_str)" in text
-        appends = "grid_str += '\\n'" in text
-        squeezes = "TRAILING_NL_RE.sub('\\n', grid_str)" in text
+        from .. import match
+        probe = match.Script(_Probe(), 'C03.D3', [pp], FR, '%s::parse' % FR)
+        strips_all = probe.need(["_R_text = TRAILING_NL_RE.sub('', _R_src)"], '', '', optional=True) is not None
+        appends = probe.need(["_R_text += '\\n'", "_R_text = _R_text + '\\n'"], '', '', optional=True) is not None
+        squeezes = probe.need(["_R_t2 = TRAILING_NL_RE.sub('\\n', _R_src)"], '', '', optional=True) is not None \
+            or "TRAILING_NL_RE.sub('\\n', grid_str)" in text
         crlf_trailing = L.accepts(pr_t.body, '\r\n') and L.accepts(pr_t.body, '\n') and L.accepts(pr_t.body, '\r\n\r\n')
     except Unsupported as e:
         ctx.error('C03.D3', 'TRAILING_NL_RE: %s' % e)
@@ -354,7 +384,11 @@ def _framing(ctx):
                       'a two-grid CRLF document (…\\r\\n\\r\\nver:…) is handed to the grid grammar in one piece and rejected',
                       'GRID_SEP does not match a CRLF blank line', file=FR, engine='E3')
     # (iii) empty input
-    if 'grid_data = [g for g in GRID_SEP.split(grid_str) if g]' in text:
+    comps = [n for n in ast.walk(pp) if isinstance(n, ast.ListComp) and 'GRID_SEP.split(' in norm(n)]
+    filtered = any(len(c.generators) == 1 and c.generators[0].ifs and norm(c.generators[0].ifs[0]) in (
+        norm(c.generators[0].target), '%s.strip()' % norm(c.generators[0].target), 'len(%s) > 0' % norm(c.generators[0].target))
+        and norm(c.elt) == norm(c.generators[0].target) for c in comps)
+    if filtered:
         ctx.ob('C03.D3', 'empty pieces are dropped: empty input holds no grid', True, where)
     elif 'GRID_SEP.split' in text:
         ctx.violation('C03.D3', '%s::parse' % FR, 'GRID_SEP.split(...)',
